@@ -747,3 +747,52 @@ fn circular_arc_properties(a: Pos, b: Pos, c: Pos) -> Option<CircularArcProperti
         centre,
     })
 }
+
+/// Verification hooks: thin forwarding wrappers around the private curve
+/// kernels; compiled only with `--cfg maxohn_rosu_map_verif`.
+#[cfg(maxohn_rosu_map_verif)]
+#[doc(hidden)]
+pub mod verif_hooks {
+    use super::{BorrowedCurve, Curve, CurveBuffers, GameMode, PathControlPoint, Pos};
+
+    /// Build buffers whose `path` is the given polyline.
+    pub fn bufs_from_path(path: Vec<Pos>) -> CurveBuffers {
+        CurveBuffers {
+            path,
+            ..CurveBuffers::default()
+        }
+    }
+
+    pub fn bufs_path(bufs: &CurveBuffers) -> &[Pos] {
+        &bufs.path
+    }
+
+    pub fn bufs_lengths(bufs: &CurveBuffers) -> &[f64] {
+        &bufs.lengths
+    }
+
+    pub fn bufs_vertices(bufs: &CurveBuffers) -> &[Pos] {
+        &bufs.vertices
+    }
+
+    pub fn calculate_path(
+        mode: GameMode,
+        points: &[PathControlPoint],
+        bufs: &mut CurveBuffers,
+        optimized_len: &mut f64,
+    ) {
+        super::calculate_path(mode, points, bufs, optimized_len);
+    }
+
+    pub fn calculate_length(bufs: &mut CurveBuffers, expected_len: Option<f64>, optimized_len: f64) {
+        super::calculate_length(bufs, expected_len, optimized_len);
+    }
+
+    pub fn curve_from_raw(path: Vec<Pos>, lengths: Vec<f64>) -> Curve {
+        Curve { path, lengths }
+    }
+
+    pub fn borrowed_from_raw<'a>(path: &'a [Pos], lengths: &'a [f64]) -> BorrowedCurve<'a> {
+        BorrowedCurve { path, lengths }
+    }
+}
